@@ -1,7 +1,8 @@
-\* C08 quick tier: exhaustive tiny families + every supported configuration with domain 8..256
-\* (2 variants each) + apply_drp / position-mapping cases.
+\* C08 quick tier: tiny exhaustive families (ex1 with 11 of the 97 values of c1), every schedule with
+\* domain 8..256 (2 variants each), domains 512 and 1024 with blowup 16, apply_drp / position cases.
 SPECIFICATION Spec
-CONSTANTS DoEx1 = TRUE  DoEx3 = TRUE  MinLogN = 3  MaxLogN = 8  Variants = 2  NDrp = 150  NPos = 300
+CONSTANTS NReal = 120  RealMaxLogN = 12  MinLogN = 3  MaxLogN = 8  Variants = 2  NDrp = 150  NPos = 300
+  Ex1B <- Ex1BQuick  Ex3A = {1, 3}  Ex3P = {2, 3, 4}  BigLogNs = {9, 10}  BigBlowups = {16}
   Blowups <- BlowupsAll  Foldings <- FoldingsAll  RemDegs <- RemDegsAll
 ACTION_CONSTRAINT Emit
 CHECK_DEADLOCK FALSE
